@@ -1,5 +1,8 @@
 import MetadorModel.Model.Merge
 import MetadorModel.Proofs.Listing
+import MetadorModel.Proofs.MergeFollow
+import MetadorModel.Proofs.StubFollow
+import MetadorModel.Proofs.OverlayWriteStep
 /-!
 # C05 — merge materialises the overlay view and continues the patch chain
 
@@ -86,7 +89,7 @@ theorem merge_view (r m : Rec V) (h : ViewReplayable r) (hm : mergeCont r = .ok 
   by_cases hq : q = []
   · subst hq
     have hroot := fun k => materialise_root_attr (Overlay.listing r) h m hm (rootAttrs_nodup r) k
-    refine ⟨by rw [(hroot "").2, viewKind_root], fun k => ?_⟩
+    refine ⟨by rw [(hroot "").2, Listing.viewKind_root], fun k => ?_⟩
     rw [(hroot k).1, root_attr_listing]
   · have hkind := materialise_kind (Overlay.listing r) h m hm q hq
     rw [aget_nonRoot _ q hq, aget_listing r q hq] at hkind
@@ -127,6 +130,133 @@ def exRec : Rec Nat :=
 
 example : exRec.length = 3 ∧ ViewReplayable exRec :=
   ⟨by decide +kernel, replayableB_sound _ (by decide +kernel)⟩
+
+/-! ### follow-up patches: every patch that applies to the source applies to the merged container
+with the same result -/
+open MetadorModel.Follow
+
+/-- the merged record is one well-formed container (plain root group, parent-closed, no deletion
+markers): it satisfies the record invariant on its own -/
+theorem merge_inv (r m : Rec V) (h : ViewReplayable r) (hm : mergeCont r = .ok m) : Inv m := by
+  obtain ⟨c, rfl, g, hroot⟩ := materialise_shape _ h m hm
+  exact inv_single c g hroot
+
+/-- the merged container mentions no path (other than the root) that the source never mentions -/
+theorem merge_mentions (r m : Rec V) (h : ViewReplayable r) (hm : mergeCont r = .ok m) :
+    MentionSub r m := by
+  obtain ⟨c, rfl, g, _⟩ := materialise_shape _ h m hm
+  refine mentionSub_single c g r (fun q _ hne => ?_)
+  rw [← (merge_view r [c] h hm q).1]
+  exact hne
+
+/-- **follow-up patches, strongest form**: the patch containers `ps` (newest first) only have to
+be valid continuations of the source record `r` (`InvOver ps r`; nothing is asked of the
+containers of `r` themselves). Then they are valid continuations of the merged container, the
+combined record satisfies the record invariant, and at every path it shows what the patches
+show on top of the source. -/
+theorem merge_followups_over (r m : Rec V) (h : ViewReplayable r) (hm : mergeCont r = .ok m)
+    (ps : List (Cont V)) (hps : InvOver ps r) :
+    Inv (ps ++ m) ∧ ∀ q, viewKind (ps ++ m) q = viewKind (ps ++ r) q ∧
+      ∀ k, viewAttr (ps ++ m) q k = viewAttr (ps ++ r) q k := by
+  have hv : SameView r m := fun q =>
+    ⟨((merge_view r m h hm q).1).symm, fun k => ((merge_view r m h hm q).2 k).symm⟩
+  obtain ⟨h1, h2⟩ := follow_same_view r m hv (merge_mentions r m h hm) ps hps
+  exact ⟨inv_append ps m h1 (merge_inv r m h hm), h2.symm⟩
+
+/-- **every patch that applies to the source applies to the merged container with the same
+result**: any list of patch containers `ps` that is a valid continuation of the source record
+(`Inv (ps ++ r)`, the invariant every record produced by the write paths satisfies) is a valid
+continuation of the merged single container, and the patched merged record shows, at every
+path, the same kind/value and the same attributes as the patched source. -/
+theorem merge_followups_same_view (r m : Rec V) (h : ViewReplayable r) (hm : mergeCont r = .ok m)
+    (ps : List (Cont V)) (hinv : Inv (ps ++ r)) :
+    Inv (ps ++ m) ∧ ∀ q, viewKind (ps ++ m) q = viewKind (ps ++ r) q ∧
+      ∀ k, viewAttr (ps ++ m) q k = viewAttr (ps ++ r) q k :=
+  merge_followups_over r m h hm ps (invOver_of_inv ps r hinv)
+
+/-- closed form: the patched merged record shows the patches `ps` applied (oldest first, as the
+monoid action `applyKind/applyAttr` of C01) to the view of the source -/
+theorem merge_followups_fold (r m : Rec V) (h : ViewReplayable r) (hm : mergeCont r = .ok m)
+    (ps : List (Cont V)) (hps : InvOver ps r) :
+    viewKind (ps ++ m) = ps.foldr applyKind (viewKind r) ∧
+    viewAttr (ps ++ m) = ps.foldr applyAttr (viewAttr r) := by
+  obtain ⟨_, hsame⟩ := merge_followups_over r m h hm ps hps
+  obtain ⟨f1, f2⟩ := view_fold_over ps r hps
+  exact ⟨(funext fun q => (hsame q).1).trans f1, (funext fun q => funext fun k => (hsame q).2 k).trans f2⟩
+
+/-- non-vacuity: two further patches written on top of the three-container source `exRec`
+(replace a dataset by a group, delete a group, attributes on an old node, a new root attribute);
+the five-container record satisfies the invariant, so the theorem applies with these `ps`;
+the merged container exists and the patched merged record shows the updates. -/
+def exFollow : Rec Nat :=
+  (W.run exRec [.patch, .del ["a", "y"], .grp ["a", "y"], .set ["a", "y", "z"] 7, .sattr ["a"] "k" 6,
+    .patch, .del ["b"], .sattr [] "s" 1, .dattr ["a"] "k"]).1
+
+def exPatches : List (Cont Nat) := exFollow.take 2
+
+example : exFollow = exPatches ++ exRec ∧ exPatches.length = 2 ∧ Inv (exPatches ++ exRec) :=
+  ⟨by decide +kernel, by decide +kernel, invB_sound _ (by decide +kernel)⟩
+
+example : ∃ m, mergeCont exRec = .ok m ∧
+    viewKind (exPatches ++ m) ["a", "y", "z"] = some (.data 7) ∧
+    viewKind (exPatches ++ m) ["b"] = none ∧ viewKind (exPatches ++ m) ["a", "x"] = none ∧
+    viewAttr (exPatches ++ m) [] "s" = some 1 ∧ viewAttr (exPatches ++ m) [] "r" = some 9 ∧
+    viewAttr (exPatches ++ m) ["a"] "k" = none :=
+  ⟨_, (materialise_eq _ (replayableB_sound _ (by decide +kernel))).1, by decide +kernel⟩
+
+/-- **operational form, for the existence-based part of the API** (`create_group`,
+`create_dataset`, `del`, `attrs[k] = v`, `del attrs[k]`, any number of patch boundaries; `copy` and
+`move` are not covered here): performing the same update in new patches on top of the source
+and on top of the merged container reports the same outcome for every operation and creates the
+very same patch containers `ps`; the two patched records show the same tree.
+
+Hypothesis `InvAlong (newPatch r) ops`: the update of the *source* keeps the record invariant of
+C01 at every step (preservation of `Inv` by the write paths — C01 write side); nothing is assumed
+about the run on the merged container. -/
+theorem merge_same_update_partial (r m : Rec V) (h : ViewReplayable r) (hm : mergeCont r = .ok m)
+    (hne : r ≠ []) (ops : List (Op V)) (hex : ∀ op ∈ ops, isExP op = true)
+    (hinv : InvAlong (newPatch r) ops) :
+    ∃ ps outs, ps ≠ [] ∧
+      W.run (newPatch m) ops = (ps ++ m, outs) ∧ W.run (newPatch r) ops = (ps ++ r, outs) ∧
+      Inv (ps ++ m) ∧ ∀ q, viewKind (ps ++ m) q = viewKind (ps ++ r) q ∧
+        ∀ k, viewAttr (ps ++ m) q k = viewAttr (ps ++ r) q k := by
+  have hv : SameView r m := fun q =>
+    ⟨((merge_view r m h hm q).1).symm, fun k => ((merge_view r m h hm q).2 k).symm⟩
+  have he : r.isEmpty = m.isEmpty := by
+    obtain ⟨c, rfl, _, _⟩ := materialise_shape _ h m hm
+    cases r with
+    | nil => exact absurd rfl hne
+    | cons a r => rfl
+  obtain ⟨ps, outs, e1, e2, h3, h4, _⟩ :=
+    run_same_patches ops r m Cont.init hv.skel (merge_mentions r m h hm) he hex hinv
+  obtain ⟨i1, i2⟩ := merge_followups_same_view r m h hm ps h4
+  exact ⟨ps, outs, h3, e2, e1, i1, i2⟩
+
+theorem isBasic_of_isExP (op : Op V) (h : isExP op = true) : op.isBasic = true := by
+  cases op <;> first | rfl | cases h
+
+/-- the same without any assumption on the runs: the source record satisfies the record
+invariant (every record produced by the write paths does, `Overlay.step_inv_basic`) -/
+theorem merge_same_update (r m : Rec V) (h : ViewReplayable r) (hm : mergeCont r = .ok m)
+    (hne : r ≠ []) (hinv : Inv r) (ops : List (Op V)) (hex : ∀ op ∈ ops, isExP op = true) :
+    ∃ ps outs, ps ≠ [] ∧
+      W.run (newPatch m) ops = (ps ++ m, outs) ∧ W.run (newPatch r) ops = (ps ++ r, outs) ∧
+      Inv (ps ++ m) ∧ ∀ q, viewKind (ps ++ m) q = viewKind (ps ++ r) q ∧
+        ∀ k, viewAttr (ps ++ m) q k = viewAttr (ps ++ r) q k :=
+  merge_same_update_partial r m h hm hne ops hex
+    (invAlong_of_step_inv
+      (fun R R' op hb hI hstep => (step_inv_basic R R' op (isBasic_of_isExP op hb) hI hstep).1)
+      ops (newPatch r) hex ⟨wf_init, invLast_init r, hinv⟩)
+
+example : Inv exRec := invB_sound _ (by decide +kernel)
+
+/-- non-vacuity: an update in two patches on the three-container source -/
+def exOps : List (Op Nat) :=
+  [.grp ["c"], .set ["a", "x"] 5, .del ["b"], .sattr ["a"] "k" 8, .dattr ["a"] "k",
+   .set ["a", "y", "t"] 3, .patch, .set ["c", "d"] 1, .del ["a", "y"], .grp ["q", "w", "e"]]
+
+example : (∀ op ∈ exOps, isExP op = true) ∧ exRec ≠ [] ∧ InvAlong (newPatch exRec) exOps :=
+  ⟨by decide, by decide +kernel, invAlongB_sound _ _ (by decide +kernel)⟩
 
 end tree
 
